@@ -292,6 +292,93 @@ func outboundPaths(r *lib.Run, idx, limit int) {
 	}
 }
 
+// extraOutbound: (a) offers that cannot be encoded (more than 64 keys, over-long key) — by direct offer and
+// through gossip, which does not enforce the limits itself; (b) the slot of an accepted offer stays taken
+// while its transfer is in progress: with every slot held by transfers that have not finished yet (their
+// result has not been reported), no further slot may be obtainable — otherwise more transfers than the
+// limit can run at once.
+func extraOutbound(r *lib.Run, idx, limit int) {
+	if limit == 0 {
+		return
+	}
+	w, err := newWorld(r, idx, limit, 2, 300*time.Millisecond)
+	if err != nil {
+		r.FloorMiss("world: %v", err)
+		return
+	}
+	defer w.close()
+	p := w.peers[0]
+	p.mode.Store("declined")
+	// (a) unencodable
+	for _, variant := range []string{"65-keys", "key-of-3000-bytes"} {
+		permit, ok := w.node.Utp.GetOutboundPermit()
+		if !ok {
+			r.Violation("slot-not-returned:outbound:before-unencodable", "no outbound slot obtainable although nothing is in progress", map[string]any{"limit": limit})
+			return
+		}
+		req := offerReq(65)
+		if variant == "key-of-3000-bytes" {
+			req = offerReq(1)
+			req.Request.(*portalwire.TransientOfferRequest).Contents[0].ContentKey = make([]byte, 3000)
+		}
+		_, err := w.node.P.VerifOffer(p.adv.Self(), req, permit)
+		if err == nil {
+			r.Count("unencodable_offer_was_sent_info", 1)
+		}
+		r.Count("outbound_offer_unencodable", 1)
+	}
+	w.verdict("offer:unencodable", "outbound", 12*time.Second, nil)
+	w.node.P.AddEnr(p.adv.Self())
+	keys, contents := make([][]byte, 65), make([][]byte, 65)
+	for i := range keys {
+		keys[i], contents[i] = []byte{0x00, byte(i), 4, 4}, []byte{1}
+	}
+	_, _ = w.node.P.GossipAndReturnPeers(nil, keys, contents)
+	time.Sleep(300 * time.Millisecond)
+	w.verdict("gossip:unencodable-batch", "outbound", 12*time.Second, nil)
+	// (b) slots held while transfers are in progress
+	w.peers[1].mode.Store("accept-ignore") // accepted, but nobody listens on the announced id: the transfer dials for seconds
+	var results []chan *portalwire.OfferTrace
+	for i := 0; i < limit && i < 4; i++ {
+		permit, ok := w.node.Utp.GetOutboundPermit()
+		if !ok {
+			break
+		}
+		res := make(chan *portalwire.OfferTrace, 1)
+		req := &portalwire.OfferRequest{Kind: portalwire.TransientOfferRequestWithResultKind, Request: &portalwire.TransientOfferRequestWithResult{
+			Content: &portalwire.ContentEntry{ContentKey: []byte{0x00, byte(i), 8, 8}, Content: make([]byte, 100)}, Result: res}}
+		if _, err := w.node.P.VerifOffer(w.peers[1].adv.Self(), req, permit); err != nil {
+			r.Inconclusive("slot-held scenario: offer failed: %v", err)
+			return
+		}
+		results = append(results, res)
+	}
+	if len(results) == limit { // every slot is taken by a transfer whose result is still pending
+		pending := func() bool {
+			for _, c := range results {
+				if len(c) > 0 {
+					return false
+				}
+			}
+			return true
+		}
+		if pending() {
+			extra, ok := w.node.Utp.GetOutboundPermit()
+			if ok {
+				extra.Release()
+			}
+			r.Eval(1)
+			r.Count("slot_held_during_transfer_checked", 1)
+			r.Distinct(fmt.Sprintf("outbound/held-during-transfer/limit%d", limit))
+			if ok && pending() {
+				r.Violation("more-transfers-than-limit:outbound:slot-free-during-transfer", fmt.Sprintf("with a limit of %d, %d accepted offers whose transfers have not finished yet (no result reported) — and a further outbound slot is obtainable: more transfers than the limit can be in progress at once", limit, len(results)),
+					map[string]any{"limit": limit, "transfers_in_progress": len(results)})
+			}
+		}
+	}
+	w.verdict("offer:accept-ignore-with-result", "outbound", 150*time.Second, nil)
+}
+
 // inboundPaths: peers offer to the node and then misbehave on the transfer.
 func inboundPaths(r *lib.Run, idx, limit int) {
 	w, err := newWorld(r, idx, limit, 3, 300*time.Millisecond)
@@ -530,7 +617,7 @@ func stopPaths(r *lib.Run, idx int) {
 
 func run(r *lib.Run) {
 	pnode.Quiet()
-	r.SetRule("fault enumeration over the exit paths of an offer. Outbound (node offers to a scripted peer, permit taken through the node's own controller): peer declines, empty reply, wrong code, undecodable accept, wrong verdict count, accepted+served, accepted then connection closed at once, accepted but nobody listens on the announced id, silent peer; " +
+	r.SetRule("fault enumeration over the exit paths of an offer. Outbound (node offers to a scripted peer, permit taken through the node's own controller): peer declines, empty reply, wrong code, undecodable accept, wrong verdict count, accepted+served, accepted then connection closed at once, accepted but nobody listens on the announced id, silent peer, offers that cannot be encoded (65 keys, 3000-byte key; also through gossip), slot still taken while every accepted transfer is pending; " +
 		"gossip rounds to 8 peers with mixed outcomes (bound on simultaneously open exchanges), gossip beyond the offer-queue capacity with every worker blocked, Stop() with offers queued and in progress. Inbound (scripted peers offer, all slots taken at once by different peers): success, garbage stream, wrong item count, dialled and closed, never dialled, limit 0. Limits 0, 1, 2, 50 (+1400 / 300 for the queue and stop paths). " +
 		"distinct_nontrivial = distinct (direction, path, limit) whose quiescent slot count was measured")
 	r.Assume("quiescence = the scenario's own activity has ceased and the code's own timeouts (15 s accept/dial, 60 s read/write; uTP idle timeout shortened to 4 s through the verif config) have had about twice their sum; not restored within the watchdog is a leak")
@@ -544,7 +631,7 @@ func run(r *lib.Run) {
 	reps := r.Pick(1, 3)
 	for rep := 0; rep < reps; rep++ {
 		for _, l := range limits {
-			for _, f := range []func(*lib.Run, int, int){outboundPaths, inboundPaths, gossipPaths} {
+			for _, f := range []func(*lib.Run, int, int){outboundPaths, inboundPaths, gossipPaths, extraOutbound} {
 				wg.Add(1)
 				idx++
 				go func(f func(*lib.Run, int, int), idx, l int) { defer wg.Done(); f(r, idx, l) }(f, idx, l)
